@@ -20,6 +20,9 @@ is a shape the extractor does not understand (fail-closed, less serious, still w
     arg-to-local   f(g(x), ..)       ->  t = g(x); f(t, ..)   (first argument of a plain call statement / assignment)
     in-tuple-to-or x in (a, b)       ->  x == a or x == b
     de-morgan      not (a or b)      ->  not a and not b;  if a and b  ->  if not (not a or not b)
+    else-after-exit / no-else-after-exit   `if c: return ..; REST`  <->  `if c: return ..  else: REST`
+    return-ifexp   return a if c else b  ->  if c: return a; return b
+    self-aug-expand  self.n -= 1     ->  self.n = self.n - 1
 
     /venv/bin/python tools/equiv_probe.py [--only flip-eq,...] [--module utils/trees.py] [--sites]
 
@@ -296,6 +299,80 @@ class DeMorgan(Rewrite):
         return node
 
 
+
+def _exits(stmts):
+    return bool(stmts) and isinstance(stmts[-1], (ast.Return, ast.Raise, ast.Continue, ast.Break))
+
+
+class ElseAfterExit(Rewrite):
+    """if c: ...exit; REST  ->  if c: ...exit  else: REST   (the conditional has no else and its body always leaves)"""
+
+    def _block(self, stmts):
+        stmts = [self.visit(st) for st in stmts]
+        for i, st in enumerate(stmts):
+            if isinstance(st, ast.If) and not st.orelse and _exits(st.body) and i + 1 < len(stmts) and self.hit():
+                st.orelse = stmts[i + 1:]
+                return stmts[:i + 1]
+        return stmts
+
+    generic_visit = IfExpToStmt.generic_visit
+
+    def visit_Lambda(self, node):
+        return node
+
+
+class NoElseAfterExit(Rewrite):
+    """if c: ...exit  else: REST  ->  if c: ...exit; REST"""
+
+    def _block(self, stmts):
+        out = []
+        for st in stmts:
+            st = self.visit(st)
+            if isinstance(st, ast.If) and st.orelse and _exits(st.body) and not (len(st.orelse) == 1 and isinstance(st.orelse[0], ast.If)) and self.hit():
+                rest = st.orelse
+                st.orelse = []
+                out.append(st)
+                out.extend(rest)
+            else:
+                out.append(st)
+        return out
+
+    generic_visit = IfExpToStmt.generic_visit
+
+    def visit_Lambda(self, node):
+        return node
+
+
+class ReturnIfExp(Rewrite):
+    """return a if c else b  ->  if c: return a; return b"""
+
+    def _block(self, stmts):
+        out = []
+        for st in stmts:
+            st = self.visit(st)
+            if isinstance(st, ast.Return) and isinstance(st.value, ast.IfExp) and self.hit():
+                out.append(ast.If(test=st.value.test, body=[ast.Return(value=st.value.body)], orelse=[]))
+                out.append(ast.Return(value=st.value.orelse))
+            else:
+                out.append(st)
+        return out
+
+    generic_visit = IfExpToStmt.generic_visit
+
+    def visit_Lambda(self, node):
+        return node
+
+
+class SelfAugExpand(Rewrite):
+    """self.n -= 1  ->  self.n = self.n - 1   (integer constants only)"""
+
+    def visit_AugAssign(self, node):
+        if isinstance(node.target, ast.Attribute) and isinstance(node.target.value, ast.Name) and isinstance(node.op, (ast.Add, ast.Sub)) and isinstance(node.value, ast.Constant) and isinstance(node.value.value, int) and self.hit():
+            load = ast.Attribute(value=node.target.value, attr=node.target.attr, ctx=ast.Load())
+            return ast.Assign(targets=[node.target], value=ast.BinOp(left=load, op=node.op, right=node.value))
+        return node
+
+
 def package_signatures(prog):
     seen, dup = {}, set()
     for mod in prog.modules.values():
@@ -329,6 +406,10 @@ REWRITES = {
     "arg-to-local": lambda sig, only: ArgToLocal(only),
     "in-tuple-to-or": lambda sig, only: InTupleToOr(only),
     "de-morgan": lambda sig, only: DeMorgan(only),
+    "else-after-exit": lambda sig, only: ElseAfterExit(only),
+    "no-else-after-exit": lambda sig, only: NoElseAfterExit(only),
+    "return-ifexp": lambda sig, only: ReturnIfExp(only),
+    "self-aug-expand": lambda sig, only: SelfAugExpand(only),
 }
 
 
